@@ -288,6 +288,12 @@ def rw_workload(ver, maxbuf, variant=0):
           [w(3000), {"op": "position"}, w(900), {"op": "position"}] + FL + \
           [{"op": "seek", "whence": "start", "d": 100, "sym": ""}, {"op": "position"}, w(50), {"op": "position"}] + FL + \
           [{"op": "read", "n": 2000}, {"op": "position"}, w(10), {"op": "position"}] + FL
+    # a small overwrite that stays buffered, then reads that run past the buffered window (each issued twice: the
+    # first may fail), then the flush: the overwrite must be in the stream whatever happened to the reads
+    ops += [{"op": "seek", "whence": "start", "d": 200, "sym": ""}, {"op": "position"}, w(30), {"op": "position"},
+            {"op": "read", "n": 3000}, {"op": "position"}, {"op": "read", "n": 3000}, {"op": "position"}] + FL + \
+           [{"op": "seek", "whence": "start", "d": 1500, "sym": ""}, {"op": "position"}, w(7), {"op": "position"},
+            {"op": "fill_buf"}, {"op": "position"}, {"op": "read_to_end"}, {"op": "position"}, {"op": "read_to_end"}, {"op": "position"}] + FL
     if variant == 1:
         ops += [{"op": "set_len", "n": 6000}, {"op": "position"}, {"op": "set_len", "n": 6000}, {"op": "position"}] + FL + \
                [{"op": "set_len", "n": 100}, {"op": "position"}, {"op": "set_len", "n": 100}, {"op": "position"}] + FL
